@@ -16,6 +16,7 @@ import VyxalModel.Model.Streams
 import VyxalModel.Gen.Codepage
 import VyxalModel.Gen.Dictionary
 import VyxalModel.Model.RefSem
+import VyxalModel.Model.PySem
 /-! Line protocol: `cmd<TAB>argument`; one answer line per request. -/
 open Vy
 
@@ -264,6 +265,21 @@ def refCmd (arg : String) : String :=
        | .error e => showSErr e)
   | _ => "BADARG"
 
+/-- `py <flags>|<inputs>|<program code points>` : the Python semantics of the model's transpiled tree -/
+def pyCmd (arg : String) : String :=
+  match arg.splitOn "|" with
+  | [flags, ins, prog] =>
+    (match parseTop (tokenise (parseCps prog)) with
+     | .error e => s!"ERR parse {repr e}"
+     | .ok tree =>
+       match transpileAst (genEnv true) tree with
+       | .error e => showTErr e
+       | .ok code =>
+         match Sem.pyProgram (Sem.cfgOfFlags flags Gen.elements Gen.modifiers) 200 flags (parseValList ins) code with
+         | .ok (st, out) => showVal' (.list st) ++ " " ++ escNl out
+         | .error e => showSErr e)
+  | _ => "BADARG"
+
 /-- `elem <python function name>|<argument list>` -/
 def elemCmd (arg : String) : String :=
   match arg.splitOn "|" with
@@ -331,6 +347,7 @@ def answer (cmd arg : String) : String :=
   | "ll" => llCmd arg
   | "inp" => inpCmd arg
   | "ref" => refCmd arg
+  | "py" => pyCmd arg
   | "elem" => elemCmd arg
   | _ => "BADCMD"
 
